@@ -296,7 +296,130 @@ def extract_pool(repo, parents):
             "def poolCountsIdleOnly : Bool := " + ("true" if idle_only else "false")]
 
 
-SECTIONS = [extract_models, extract_pool]
+# ---------------------------------------------------------------------------------------------
+# C16: which time-out key reaches which network operation (every call site, reached by a scenario or not)
+# ---------------------------------------------------------------------------------------------
+
+NET_METHODS = {"read": "read", "write": "write", "connect_tcp": "connect", "connect_unix_socket": "connect", "start_tls": "connect"}
+POSITIONAL_TIMEOUT = {"read": 1, "write": 1, "start_tls": 2, "connect_tcp": 2, "connect_unix_socket": 1}
+
+
+def _func_defs(tree):
+    out = []
+    for node in ast.walk(tree):
+        if isinstance(node, ast.ClassDef):
+            for sub in node.body:
+                if isinstance(sub, (ast.FunctionDef, ast.AsyncFunctionDef)):
+                    out.append((node.name, sub))
+    for node in tree.body:
+        if isinstance(node, (ast.FunctionDef, ast.AsyncFunctionDef)):
+            out.append(("", node))
+    return out
+
+
+def _resolve_timeout(expr, fn):
+    """-> ('key', k) | ('param', name) | ('none',) | ('unknown', text)"""
+    if expr is None:
+        return ("none",)
+    if isinstance(expr, ast.Constant) and expr.value is None:
+        return ("none",)
+    if isinstance(expr, ast.Name):
+        params = [a.arg for a in fn.args.args + fn.args.kwonlyargs]
+        assigns = [n for n in ast.walk(fn) if isinstance(n, ast.Assign) and len(n.targets) == 1 and getattr(n.targets[0], "id", None) == expr.id]
+        keys = set()
+        for a in assigns:
+            v = a.value
+            if (isinstance(v, ast.Call) and ast.unparse(v.func) == "timeouts.get" and v.args and isinstance(v.args[0], ast.Constant)):
+                keys.add(v.args[0].value)
+            else:
+                return ("unknown", ast.unparse(v))
+        if len(keys) == 1:
+            return ("key", keys.pop())
+        if not keys and expr.id in params:
+            return ("param", expr.id)
+    return ("unknown", ast.unparse(expr))
+
+
+def extract_timeouts(repo, parents):
+    rows = []
+    for mod in ("connection", "http11", "http2", "http_proxy", "socks_proxy", "connection_pool"):
+        tree = _parse(repo, f"httpcore/_async/{mod}.py")
+        defs = _func_defs(tree)
+        for cls, fn in defs:
+            # dict literals bound to `kwargs` carry the time-out of a following `**kwargs` call
+            kwargs_timeouts = []
+            for n in ast.walk(fn):
+                if isinstance(n, ast.Assign) and getattr(n.targets[0], "id", None) == "kwargs" and isinstance(n.value, ast.Dict):
+                    d = {ast.literal_eval(k): v for k, v in zip(n.value.keys, n.value.values) if isinstance(k, ast.Constant)}
+                    kwargs_timeouts.append((n.lineno, d.get("timeout")))
+            for call in [n for n in ast.walk(fn) if isinstance(n, ast.Call) and isinstance(n.func, ast.Attribute) and n.func.attr in NET_METHODS]:
+                op = call.func.attr
+                recv = ast.unparse(call.func.value)
+                if recv in ("self", "super()"):
+                    continue
+                if op in ("read", "write") and not any(x in recv for x in ("stream", "_network_stream")):
+                    continue
+                expr = None
+                kw = {k.arg: k.value for k in call.keywords if k.arg}
+                if "timeout" in kw:
+                    expr = kw["timeout"]
+                elif any(k.arg is None for k in call.keywords):       # **kwargs
+                    prev = [t for ln, t in kwargs_timeouts if ln < call.lineno]
+                    expr = prev[-1] if prev else None
+                elif len(call.args) > POSITIONAL_TIMEOUT[op]:
+                    expr = call.args[POSITIONAL_TIMEOUT[op]]
+                res = _resolve_timeout(expr, fn)
+                rows.append([mod, (cls + "." if cls else "") + fn.name, op, res, fn, tree, cls])
+    # one interprocedural step: a parameter is resolved through the callers in the same module
+    out = []
+    for mod, fname, op, res, fn, tree, cls in rows:
+        if res[0] == "param":
+            keys = set()
+            for c2, f2 in _func_defs(tree):
+                for call in [n for n in ast.walk(f2) if isinstance(n, ast.Call) and isinstance(n.func, ast.Attribute) and n.func.attr == fn.name
+                             and ast.unparse(n.func.value) == "self" and c2 == cls]:
+                    kw = {k.arg: k.value for k in call.keywords if k.arg}
+                    r2 = _resolve_timeout(kw.get("timeout"), f2) if "timeout" in kw else ("none",)
+                    keys.add(r2)
+            if not keys and cls == "":
+                # a module-level helper: callers use its bare name, possibly with a kwargs dict literal
+                for c2, f2 in _func_defs(tree):
+                    kd = []
+                    for n in ast.walk(f2):
+                        if isinstance(n, ast.Assign) and getattr(n.targets[0], "id", None) == "kwargs" and isinstance(n.value, ast.Dict):
+                            d = {ast.literal_eval(k): v for k, v in zip(n.value.keys, n.value.values) if isinstance(k, ast.Constant)}
+                            kd.append((n.lineno, d.get("timeout")))
+                    for call in [n for n in ast.walk(f2) if isinstance(n, ast.Call) and isinstance(n.func, ast.Name) and n.func.id == fn.name]:
+                        kw = {k.arg: k.value for k in call.keywords if k.arg}
+                        if "timeout" in kw:
+                            keys.add(_resolve_timeout(kw["timeout"], f2))
+                        elif any(k.arg is None for k in call.keywords):
+                            prev = [t for ln, t in kd if ln < call.lineno]
+                            keys.add(_resolve_timeout(prev[-1] if prev else None, f2))
+                        else:
+                            keys.add(("none",))
+            if not keys:
+                res = ("caller", res[1])       # public pass-through (e.g. the upgrade stream handed to the caller)
+            elif len(keys) == 1:
+                res = keys.pop()
+            else:
+                res = ("unknown", "callers disagree: " + repr(sorted(keys)))
+        if res[0] == "unknown":
+            raise ExtractError(f"time-out argument of {mod}.{fname} {op} not understood: {res[1]}")
+        out.append((mod, fname, op, res))
+    out = sorted(set(out), key=repr)
+    L = ["/-- every call of a network operation in `_async/*.py`: (module, function, operation, time-out key that reaches it);",
+         "`none` = no time-out is passed, `caller` = the caller of a public pass-through supplies it -/",
+         "def timeoutSites : List (String × String × String × String) := ["]
+    items = []
+    for mod, fname, op, res in out:
+        key = res[1] if res[0] == "key" else res[0]
+        items.append(f"  ({lean_str(mod)}, {lean_str(fname)}, {lean_str(op)}, {lean_str(key)})")
+    L.append(",\n".join(items) + "]")
+    return L
+
+
+SECTIONS = [extract_models, extract_pool, extract_timeouts]
 
 
 def generate(repo):
